@@ -346,7 +346,13 @@ func Main(id, level string, body func(r *Run)) {
 		}()
 		body(r)
 	}()
-	os.Exit(r.finish(!*noev))
+	code := r.finish(!*noev)
+	if *childProgress != "" {
+		// an isolated child reports its verdict with 10/11/12 so that the parent can tell it from a
+		// crash of the Go runtime (exit status 2) or any other abnormal death
+		code += 10
+	}
+	os.Exit(code)
 }
 
 func (r *Run) finish(writeEv bool) int {
